@@ -1,0 +1,7 @@
+//go:build !verif
+
+package file
+
+// verifHook is the crash-point hook of the verification harness; it does nothing unless the package is built with
+// the tag `verif` (see verif_hook_on.go).
+func verifHook(_, _ string, _ int64, _ []byte) {}
